@@ -26,24 +26,32 @@ def OldOK (old : List Row) : Prop := (old.map (·.name)).Nodup ∧ ∀ r ∈ old
 /-- no subject is ever recorded twice, in any reachable state -/
 theorem rows_unique (old : List Row) (hold : OldOK old) (sched : List Nat) :
     ((run name (initSt kind old) sched).out.map (·.name)).Nodup := by
-  sorry
+  have hinv := run_inv name kind old sched _ (init_inv name kind old hold.1 hold.2)
+  exact hinv.outNodup
 
 /-- mutual exclusion: the lock owner is exactly the thread inside the section -/
 theorem lock_exclusion (old : List Row) (hold : OldOK old) (sched : List Nat) (i : Nat) :
     (inL1 ((run name (initSt kind old) sched).pc i) = true ↔ (run name (initSt kind old) sched).l1 = some i) ∧
     (inL2 ((run name (initSt kind old) sched).pc i) = true ↔ (run name (initSt kind old) sched).l2 = some i) := by
-  sorry
+  have hinv := run_inv name kind old sched _ (init_inv name kind old hold.1 hold.2)
+  have e1 : inL1 = holds1 := by funext p; cases p <;> rfl
+  have e2 : inL2 = holds2 := by funext p; cases p <;> rfl
+  rw [e1, e2]
+  exact ⟨hinv.l1Own i, hinv.l2Own i⟩
 
 /-- an incomplete row exists only while its writer holds the file lock in the middle of the write -/
 theorem partial_only_under_lock (old : List Row) (hold : OldOK old) (sched : List Nat)
     (r : Row) (hr : r ∈ (run name (initSt kind old) sched).out) (hc : r.complete = false) :
     (run name (initSt kind old) sched).pc r.tid = .writeOut2 ∧ (run name (initSt kind old) sched).l2 = some r.tid := by
-  sorry
+  have hinv := run_inv name kind old sched _ (init_inv name kind old hold.1 hold.2)
+  have h1 := hinv.partialB r hr hc
+  exact ⟨h1, (hinv.l2Own r.tid).mp (by rw [h1]; rfl)⟩
 
 /-- a statistics object built at any moment reflects only complete rows -/
 theorem stat_complete_rows (old : List Row) (hold : OldOK old) (sched : List Nat) (i : Nat) :
     ∀ r ∈ (run name (initSt kind old) sched).seen i, r.complete = true := by
-  sorry
+  have hinv := run_inv name kind old sched _ (init_inv name kind old hold.1 hold.2)
+  exact hinv.seenC i
 
 /-- when all calls have returned the file holds exactly one complete row for every distinct subject
     submitted (also when a name was submitted concurrently more than once); previously recorded rows
@@ -56,26 +64,33 @@ theorem final_rows (old : List Row) (hold : OldOK old) (N : Nat) (sched : List N
     (∀ i < N, kind i = .eval → ∃ r ∈ s.out, r.name = name i) ∧
     (∀ r ∈ old, r ∈ s.out) ∧
     (∀ r ∈ s.out, r ∈ old ∨ (r.tid < N ∧ kind r.tid = .eval ∧ name r.tid = r.name)) := by
-  sorry
+  have hinv := run_inv name kind old sched _ (init_inv name kind old hold.1 hold.2)
+  exact final_rows_gen name kind old N _ hinv
+    (run_moved name kind N sched _ hsched (init_moved kind old N)) hdone
 
 /-- every step makes progress for the stepping thread and touches no other thread's program counter -/
 theorem step_progress (s s' : St) (i : Nat) (h : step name s i = some s') :
     remaining (s'.pc i) < remaining (s.pc i) ∧ ∀ j, j ≠ i → s'.pc j = s.pc j := by
-  sorry
+  exact Agg.step_progress name s s' i h
 
 /-- no deadlock: in every reachable state with an unfinished thread some thread below `N` can step -/
 theorem no_deadlock (old : List Row) (hold : OldOK old) (N : Nat) (sched : List Nat)
     (hsched : ∀ i ∈ sched, i < N) (i : Nat) (hi : i < N)
     (hnd : (run name (initSt kind old) sched).pc i ≠ .done) :
     ∃ j, j < N ∧ (step name (run name (initSt kind old) sched) j).isSome = true := by
-  sorry
+  have hinv := run_inv name kind old sched _ (init_inv name kind old hold.1 hold.2)
+  exact no_deadlock_gen name kind old N _ hinv
+    (run_moved name kind N sched _ hsched (init_moved kind old N)) i hi hnd
 
 /-- no call blocks forever: from every reachable state some continuation of the schedule finishes
     every thread (and, by `step_progress`, at most `14·N` effective steps can be taken at all) -/
 theorem can_finish (old : List Row) (hold : OldOK old) (N : Nat) (sched : List Nat)
     (hsched : ∀ i ∈ sched, i < N) :
     ∃ more : List Nat, (∀ i ∈ more, i < N) ∧ ∀ i < N, (run name (initSt kind old) (sched ++ more)).pc i = .done := by
-  sorry
+  have hinv := run_inv name kind old sched _ (init_inv name kind old hold.1 hold.2)
+  obtain ⟨more, h1, h2⟩ := can_finish_gen name kind old N _ _ rfl hinv
+    (run_moved name kind N sched _ hsched (init_moved kind old N))
+  exact ⟨more, h1, fun i hi => by rw [run_append]; exact h2 i hi⟩
 
 /-- non-vacuity: two threads racing for the same subject name 7 and a statistics thread -/
 example :
